@@ -35,6 +35,9 @@ pub struct RelCase {
     pub this: MI,
     /// values are index * unit
     pub unit_sixteenths: i32,
+    /// additional power-of-two scale of all bounds (0 for the ordinary grids; -1070 puts them in the subnormal range)
+    #[serde(default)]
+    pub scale_exp: i32,
 }
 
 trait Elem: Copy + PartialOrd + Debug + Add<Output = Self> + Sub<Output = Self> + Mul<Output = Self> + Div<Output = Self> + Neg<Output = Self> + num_traits::Num {
@@ -258,7 +261,7 @@ pub fn pair_case(c: &PairCase, obs: &mut Obs) -> PResult {
 /// relative_to: non-negative `this` (two-sided with low >= 0, or upper one-sided with bound >= 0)
 /// against a strictly positive reference (two-sided with low > 0, or upper one-sided with bound > 0)
 pub fn rel_case(c: &RelCase, obs: &mut Obs) -> PResult {
-    let unit = c.unit_sixteenths as f64 / 16.0;
+    let unit = c.unit_sixteenths as f64 / 16.0 * crate::fl::pow2(c.scale_exp);
     let val = |i: i32| i as f64 * unit;
     let mk = |m: &MI| -> Interval<f64> {
         match m.kind {
@@ -277,7 +280,7 @@ pub fn rel_case(c: &RelCase, obs: &mut Obs) -> PResult {
     }
     obs.eval();
     obs.class(&cls);
-    obs.nontrivial(&(c.reference, c.this, c.unit_sixteenths));
+    obs.nontrivial(&(c.reference, c.this, c.unit_sixteenths, c.scale_exp));
     let res = guard(|| this.relative_to(&reference));
     let r = match res {
         Ok(r) => r,
@@ -416,7 +419,7 @@ pub fn unsigned_case(c: &UnsignedCase, obs: &mut Obs) -> PResult {
 
 pub fn run(run: &mut Run) {
     run.technique = "bounded exhaustive enumeration over an integer box and dyadic floats; oracle = exact image of the denoted set (member-wise soundness, attained bounds, kind)".into();
-    run.rule = "all 63 intervals with bounds in [-4,4] x all scalars in [-4,4] for + - * / and negation, all ordered interval pairs for A+B / A-B, in i32, i64 (scaled), f64 (unit 0.5) and f32 (unit 0.25); the representable part of the same over u8 / u32 / usize with bounds 0..6; relative_to over non-negative intervals x strictly positive references on three dyadic grids; every case is non-trivial; distinct = (type, op, operands)".into();
+    run.rule = "all 63 intervals with bounds in [-4,4] x all scalars in [-4,4] for + - * / and negation, all ordered interval pairs for A+B / A-B, in i32, i64 (scaled), f64 (unit 0.5) and f32 (unit 0.25); the representable part of the same over u8 / u32 / usize with bounds 0..6; relative_to over non-negative intervals x strictly positive references on three dyadic grids and at three extreme scales (subnormal, smallest normal, 2^1000); every case is non-trivial; distinct = (type, op, operands)".into();
     let all = all_intervals(-B, B);
     for ty in ["i32", "i64", "f64", "f32"] {
         for op in ["add", "sub", "mul", "div", "neg"] {
@@ -465,10 +468,10 @@ pub fn run(run: &mut Run) {
     // relative_to
     let nonneg: Vec<MI> = all_intervals(0, 6).into_iter().filter(|m| m.kind != 2).collect();
     let pos: Vec<MI> = all_intervals(1, 6).into_iter().filter(|m| m.kind != 2).collect();
-    for unit in [16, 8, 3] {
+    for (unit, scale_exp) in [(16, 0), (8, 0), (3, 0), (16, -1070), (16, 1000), (16, -1022)] {
         for r in &pos {
             for t in &nonneg {
-                run.case("relative_to", &RelCase { reference: *r, this: *t, unit_sixteenths: unit }, rel_case);
+                run.case("relative_to", &RelCase { reference: *r, this: *t, unit_sixteenths: unit, scale_exp }, rel_case);
             }
         }
     }
